@@ -12,6 +12,18 @@ import (
 // scope returns fn, its function literals, and the same-package module functions statically called from them,
 // transitively up to depth (anchors of other roles can be excluded by the caller).
 func (c *Ctx) scope(fn *ssa.Function, depth int, exclude ...*ssa.Function) []*ssa.Function {
+	return c.scopeX(fn, depth, false, exclude...)
+}
+
+// scopeSyn is scope for rules that follow *values* through the helpers (taint): it also returns the bodies ssa
+// synthesises for the module — instances of the module's generic functions (mapSlice[Expression, uint64] has a body of
+// its own under ssa.InstantiateGenerics) and the wrappers themselves (the thunk of a method expression
+// `Expression.cacheKey` is where the interface method is invoked; no module function is behind it to look through to).
+func (c *Ctx) scopeSyn(fn *ssa.Function, depth int, exclude ...*ssa.Function) []*ssa.Function {
+	return c.scopeX(fn, depth, true, exclude...)
+}
+
+func (c *Ctx) scopeX(fn *ssa.Function, depth int, syn bool, exclude ...*ssa.Function) []*ssa.Function {
 	ex := map[*ssa.Function]bool{}
 	for _, e := range exclude {
 		ex[e] = true
@@ -24,8 +36,11 @@ func (c *Ctx) scope(fn *ssa.Function, depth int, exclude ...*ssa.Function) []*ss
 			return
 		}
 		// synthetic wrappers (bound method values `x.m`, thunks): look through to the function they call
-		if f.Synthetic != "" {
+		if f.Synthetic != "" && !(syn && len(f.TypeArgs()) > 0) {
 			seen[f] = true
+			if syn && c.w.inModule(f) && c.w.pkgPathOf(f) == c.w.pkgPathOf(fn) {
+				out = append(out, f)
+			}
 			allInstrs(f, func(i ssa.Instruction) {
 				if cc := callCommon(i); cc != nil {
 					visit(calleeFunc(cc), d)
